@@ -41,5 +41,7 @@ func (e errorHandler) ServeHTTP(w http.ResponseWriter, r *http.Request) {
 		return
 	}
 
-	e.LogWriter.Error(fmt.Sprintf("request error from (%s) %s: %+v", r.RemoteAddr, r.URL.String(), err))
+	// Log the path only: the query string of authboss routes carries secrets
+	// (confirmation, recovery and 2fa e-mail tokens, oauth2 codes and state).
+	e.LogWriter.Error(fmt.Sprintf("request error from (%s) %s: %+v", r.RemoteAddr, r.URL.Path, err))
 }
